@@ -166,12 +166,16 @@ func c18Fonts(thorough bool) []*c18Font {
 		g2, _ := FontFromChoices(gen.FontOpts{NoMeta: true, NoLayout: true}, 0, 1, 2, 2, 1)
 		g2.Outlines.(*glyf.Outlines).Tables = map[string][]byte{"gasp": {0, 1, 0, 1, 0xFF, 0xFF, 0, 3}, "cvt ": {0, 1, 0, 2, 0, 3}}
 		add("glyf-3-gasp-last", g2)
+		// ... and one whose physically last table is empty (a zero-length placeholder table), behind raw data
+		g3, _ := FontFromChoices(gen.FontOpts{NoMeta: true, NoLayout: true}, 0, 1, 2, 2, 1)
+		g3.Outlines.(*glyf.Outlines).Tables = map[string][]byte{"gasp": {0, 1, 0, 1, 0xFF, 0xFF, 0, 3}, "zzzz": {}}
+		add("glyf-3-empty-last", g3)
 		cf, _ := FontFromChoices(gen.FontOpts{NoMeta: true}, 1, 2, 1, 1, 2, 1, 3, 1)
 		add("cff-6", cf)
 		ci, _ := FontFromChoices(gen.FontOpts{NoMeta: true}, 2, 2, 2, 1, 1, 3, 2, 1, 0)
 		add("cid-6", ci)
 	})
-	if thorough && len(c18Corpus) == 4 {
+	if thorough && len(c18Corpus) == 5 {
 		f, err := sfnt.Read(bytes.NewReader(goregular.TTF))
 		if err != nil {
 			explore.Fatal("C18: go regular: %v", err)
